@@ -97,6 +97,7 @@ class Interp:
         self.calllog = []          # (callee, args, result) for watched callees
         self.const_cells = set()
         self.trace_caps = []
+        self._impl_cache = {}
         self.trace_names = None    # callee short names whose call sites are recorded, in execution order, in self.trace
         self.trace = []
         self.watch = set()
@@ -1236,13 +1237,13 @@ class Interp:
         counter = itertools.count()
         key0 = (0, ())
         stored[key0] = state
-        heapq.heappush(work, (rpo.get(0, 0), (), next(counter), key0))
+        heapq.heappush(work, (0, rpo.get(0, 0), (), next(counter), key0))
         inq = {key0}
         ret_state = None
         ret_changed = False
         visits = {}
         while work:
-            _, _, _, key = heapq.heappop(work)
+            _, _, _, _, key = heapq.heappop(work)
             inq.discard(key)
             st = stored[key].copy()
             bb, ctx = key
@@ -1296,7 +1297,9 @@ class Interp:
                     stored[nkey] = ost
                 if nkey not in inq:
                     inq.add(nkey)
-                    heapq.heappush(work, (rpo.get(tgt, 0), _ctx_order(nctx), next(counter), nkey))
+                    # blocks of an earlier unrolled iteration first: the header of iteration n+1 then sees the merged state of
+                    # all paths of iteration n at once (partial merges are sound but cost precision in sequence-valued domains)
+                    heapq.heappush(work, (_ctx_total(nctx), rpo.get(tgt, 0), _ctx_order(nctx), next(counter), nkey))
         self.depth -= 1
         if ret_state is None:
             raise Diverge(body.name)
@@ -1566,6 +1569,9 @@ class Interp:
             return
         if term is None and o is not None and o[0] in ("cmp", "fcmp"):
             term = (o[1], _vterm(o[2]), _vterm(o[3]))
+            if "atom_vals" in self.side:
+                from .domain import show_term as _st
+                self.side["atom_vals"][_st(term)] = (o[2], o[3])      # the compared values themselves (rules may need their bits)
         if term is not None:
             state.pc = state.pc | {(term, truth != neg if b.term is None else truth)}
 
@@ -1673,17 +1679,68 @@ class Interp:
                 if name in self.facts.bodies:
                     return self.run_body(state, self.facts.bodies[name], [f] + list(tup.items))
         m = self.models.lookup(callee, name) if self.models else None
+        if m is None and name not in self.facts.bodies and callee.get("trait") and not callee.get("instance"):
+            # a call on `Self` inside a provided trait method of the crate (`self.flag(..)` in `Bits::valid_field`): the
+            # receiver's impl is not known to the polymorphic MIR; when the crate has exactly one impl of that method, it is it
+            suffix = " as %s>::%s" % (callee["trait"], callee.get("name"))
+            impls = self._impl_cache.get(suffix)
+            if impls is None:
+                impls = [n for n in self.facts.bodies if n.endswith(suffix) and n.startswith("<")]
+                self._impl_cache[suffix] = impls
+            if len(impls) == 1:
+                name = impls[0]
         if m is not None:
             st2, rv = m(self, state, callee, args, body, term)
         elif name in self.facts.bodies and callee.get("local", True):
             st2, rv = self.run_body(state, self.facts.bodies[name], args)
         elif callee.get("is_closure") and name in self.facts.bodies:
             st2, rv = self.run_body(state, self.facts.bodies[name], args)
+        elif self._ctor_of(name) is not None:
+            # a tuple-variant / tuple-struct constructor used as a function (`.map(Register::TrackAndTurn)`)
+            adt, variant, is_enum = self._ctor_of(name)
+            if is_enum:
+                # like an aggregate: what was learnt since the enclosing function was entered holds whenever this variant is
+                # the one observed (`gated(..).map(Register::TrackAndTurn)` keeps the recogniser's checks)
+                g = {}
+                snap = self.entry_snap.get(state.stack[-1]) if state.stack else None
+                if snap is not None:
+                    dk = {b: v for b, v in state.kb.items() if snap[0].get(b) != v}
+                    if dk:
+                        g["kb"] = dk
+                    dc = {k: v for k, v in state.cons.items() if snap[1].get(k) != v}
+                    if dc:
+                        g["cons"] = dc
+                    dp = state.pc - snap[2]
+                    if dp:
+                        g["pc"] = dp
+                st2, rv = state, EnumV(adt, {variant: (tuple(args), g)})
+            else:
+                info = self.facts.adts[adt]
+                fns = [f["name"] for f in info["variants"][0]["fields"]]
+                st2, rv = state, StructV(adt, {n_: a_ for n_, a_ in zip(fns, args)})
         else:
             st2, rv = self.unmodelled(state, callee, name, args)
         if name in self.watch:
             self.calllog.append((name, args, rv, self.ctx_label))
         return st2, rv
+
+    def _ctor_of(self, name):
+        """(adt, variant, is_enum) when `name` is the path of a tuple-like constructor of a crate type"""
+        if not name or "::" not in name:
+            return None
+        if name in self._impl_cache:
+            return self._impl_cache[name]
+        out = None
+        head, last = name.rsplit("::", 1)
+        info = self.facts.adts.get(head)
+        if info is not None and info["kind"] == "enum" and any(v["name"] == last for v in info["variants"]):
+            out = (head, last, True)
+        else:
+            info = self.facts.adts.get(name)
+            if info is not None and info["kind"] == "struct":
+                out = (name, None, False)
+        self._impl_cache[name] = out
+        return out
 
     def unmodelled(self, state, callee, name, args):
         self.warn("unmodelled", name or callee.get("ty"))
@@ -1909,6 +1966,10 @@ def _opshape(body, o):
 
 def _is_num(s):
     return isinstance(s, str) and s.isdigit()
+
+
+def _ctx_total(ctx):
+    return sum((10 ** 6 if n == "w" else n) for h, n in ctx)
 
 
 def _ctx_order(ctx):
